@@ -2018,19 +2018,22 @@ static void MPSwriteRecord(
    long long pos;
    pos = os.tellp();
 
-   spxSnprintf(buf, sizeof(buf), " %-2.2s %-8.8s", (indicator == nullptr) ? "" : indicator,
-               (name == nullptr)      ? "" : name);
+   // names are written in full (see the floating-point writer): cutting them to 8 characters made different names equal
+   spxSnprintf(buf, sizeof(buf), " %-2.2s ", (indicator == nullptr) ? "" : indicator);
    os << buf;
+   MPSwriteName(os, name);
 
    if(name1 != nullptr)
    {
-      spxSnprintf(buf, sizeof(buf), " %-8.8s ", name1);
-      os << buf << value1;
+      os << ' ';
+      MPSwriteName(os, name1);
+      os << ' ' << value1;
 
       if(name2 != nullptr)
       {
-         spxSnprintf(buf, sizeof(buf), " %-8.8s ", name2);
-         os << buf << value2;
+         os << ' ';
+         MPSwriteName(os, name2);
+         os << ' ' << value2;
       }
    }
 
